@@ -31,6 +31,19 @@ import (
 //   with invoke / return numbers from ONE atomic counter.
 //   obs = per goroutine, per call: inv; ret; #fields; rendered result.
 
+// kind "hammer": input = ["hammer"; note; me; #fields; setup ops...; #fields; writer ops w_1..w_n;
+//                          R; #fields; query ops...; cap]
+//   ONE writer goroutine applies w_1..w_n (multi-field updates of one channel / one nick) while R
+//   reader goroutines call the queries in a tight loop until the writer is done.  The writer
+//   publishes started = i before calling w_i and done = i after it returned.  Each read is
+//   stamped lo = done read BEFORE the call, hi = started read AFTER it returned: with a single
+//   writer the read is linearizable iff its result is the query's answer in the state after
+//   SOME prefix w_1..w_j with lo <= j <= hi.  A torn snapshot matches no prefix at all.
+//   obs = per recorded read: query index; lo; hi; #fields; rendered result.  Every read that
+//   overlapped a writer call (hi > lo) is recorded (up to cap per reader), of the others every 16th.
+//   The observation depends on the schedule: a replay re-runs the race, it does not reproduce
+//   the recorded reads bit for bit.
+
 func init() {
 	props["C14"] = &Prop{Gen: c14Gen, Exec: c14Exec, Class: c14Class}
 }
@@ -444,8 +457,128 @@ func c14ExecConc(in Fields) (obs Fields) {
 	return obs
 }
 
+type c14Read struct {
+	q, lo, hi int
+	res       Fields
+}
+
+func c14ExecHammer(in Fields) (obs Fields) {
+	// ["hammer"; note; me; #sf; setup; #wf; writer; R; #qf; queries; cap]
+	if len(in) < 8 {
+		return F("bad")
+	}
+	me := string(in[2])
+	i := 3
+	section := func() ([]c14Op, bool) {
+		if i >= len(in) {
+			return nil, false
+		}
+		nf, err := strconv.Atoi(string(in[i]))
+		if err != nil || nf < 0 || i+1+nf > len(in) {
+			return nil, false
+		}
+		ops, ok := c14ParseOps(in, i+1, i+1+nf)
+		i += 1 + nf
+		return ops, ok
+	}
+	setup, ok1 := section()
+	writer, ok2 := section()
+	if !ok1 || !ok2 || i >= len(in) {
+		return F("bad")
+	}
+	R, err := strconv.Atoi(string(in[i]))
+	if err != nil || R < 1 || R > 32 {
+		return F("bad")
+	}
+	i++
+	queries, ok3 := section()
+	if !ok3 || len(queries) == 0 || i >= len(in) {
+		return F("bad")
+	}
+	limit, err := strconv.Atoi(string(in[i]))
+	if err != nil || limit < 1 {
+		return F("bad")
+	}
+	if runtime.GOMAXPROCS(0) < 4 {
+		runtime.GOMAXPROCS(4)
+	}
+	st := state.Tracker(state.NewTracker(me))
+	for _, o := range setup {
+		c14Call(st, o)
+	}
+	var started, done, ready, panicked int32
+	var stop int32
+	reads := make([][]c14Read, R)
+	var wg sync.WaitGroup
+	barrier := func() {
+		atomic.AddInt32(&ready, 1)
+		for spin := 0; atomic.LoadInt32(&ready) < int32(R+1); spin++ {
+			if spin%2000 == 1999 {
+				runtime.Gosched()
+			}
+		}
+	}
+	wg.Add(1)
+	go func() {
+		defer wg.Done()
+		defer atomic.StoreInt32(&stop, 1)
+		defer func() {
+			if r := recover(); r != nil {
+				atomic.StoreInt32(&panicked, 1)
+			}
+		}()
+		barrier()
+		for k, o := range writer {
+			atomic.StoreInt32(&started, int32(k+1))
+			c14Call(st, o)
+			atomic.StoreInt32(&done, int32(k+1))
+		}
+	}()
+	for r := 0; r < R; r++ {
+		wg.Add(1)
+		go func(r int) {
+			defer wg.Done()
+			defer func() {
+				if x := recover(); x != nil {
+					atomic.StoreInt32(&panicked, 1)
+				}
+			}()
+			barrier()
+			quiet := 0
+			for n := r; ; n++ {
+				q := n % len(queries)
+				lo := int(atomic.LoadInt32(&done))
+				v := c14Call(st, queries[q])
+				hi := int(atomic.LoadInt32(&started))
+				if hi > lo {
+					if len(reads[r]) < limit {
+						reads[r] = append(reads[r], c14Read{q, lo, hi, v.render()})
+					}
+				} else if quiet++; quiet%16 == 0 && len(reads[r]) < limit {
+					reads[r] = append(reads[r], c14Read{q, lo, hi, v.render()})
+				}
+				if atomic.LoadInt32(&stop) != 0 {
+					break
+				}
+			}
+		}(r)
+	}
+	wg.Wait()
+	if atomic.LoadInt32(&panicked) != 0 {
+		return F("panic")
+	}
+	for r := 0; r < R; r++ {
+		for _, rd := range reads[r] {
+			obs = append(obs, F(rd.q, rd.lo, rd.hi, len(rd.res), rd.res)...)
+		}
+	}
+	return obs
+}
+
 func c14Exec(in Fields) Fields {
 	switch in.S(0) {
+	case "hammer":
+		return c14ExecHammer(in)
 	case "alias":
 		return c14ExecAlias(in)
 	case "conc":
@@ -478,6 +611,8 @@ func c14Class(in Fields) string {
 			return "alias:len=100-249"
 		}
 		return "alias:len=250+"
+	case "hammer":
+		return "hammer"
 	case "conc":
 		ns := in.I(2)
 		T := in.I(3 + ns)
@@ -738,6 +873,58 @@ func c14Conc(r *Rand) Fields {
 	return f
 }
 
+const c14HammerNote = "concurrent case: a replay re-runs the race, the recorded reads are not reproduced bit for bit"
+
+// one writer, R readers, one channel #c (members me, al, bo) and one nick al.  Every writer
+// call moves SEVERAL fields together, all derived from the call's index i.
+func c14Hammer(r *Rand) Fields {
+	setup := []c14Op{c14O("NC", "#c"), c14O("AS", "#c", "me"), c14O("NN", "al"), c14O("AS", "#c", "al"),
+		c14O("NN", "bo"), c14O("AS", "#c", "bo"), c14O("CM", "#c", "+kl", "00000000", "0")}
+	n := r.Range(600, 1500)
+	mix := 0 // 0: channel only (50%), 1: nick only (15%), 2: both (35%)
+	if k := r.Intn(100); k >= 85 {
+		mix = 1
+	} else if k >= 50 {
+		mix = 2
+	}
+	var w []c14Op
+	for i := 1; i <= n; i++ {
+		k := r.Intn(4)
+		if mix == 0 {
+			k = r.Intn(3)
+		} else if mix == 1 {
+			k = 3
+		}
+		si := fmt.Sprintf("%08d", i)
+		switch k {
+		case 0:
+			w = append(w, c14O("CM", "#c", "+kl", si, strconv.Itoa(i)))
+		case 1:
+			w = append(w, c14O("TO", "#c", "topic "+si))
+		case 2:
+			if i%2 == 0 {
+				w = append(w, c14O("CM", "#c", "+ovh+tn", "al", "bo", "me"))
+			} else {
+				w = append(w, c14O("CM", "#c", "-ovh-tn", "al", "bo", "me"))
+			}
+		default:
+			w = append(w, c14O("NI", "al", "i"+si, "h"+si, "n"+si))
+		}
+	}
+	queries := []c14Op{c14O("GC", "#c"), c14O("GN", "al"), c14O("IO", "#c", "al")}
+	if mix == 0 {
+		queries = []c14Op{c14O("GC", "#c"), c14O("IO", "#c", "bo")}
+	} else if mix == 1 {
+		queries = []c14Op{c14O("GN", "al"), c14O("GC", "#c")}
+	}
+	R := r.Range(4, 8)
+	sf, wf, qf := c14OpFields(setup), c14OpFields(w), c14OpFields(queries)
+	f := append(F("hammer", c14HammerNote, "me", len(sf)), sf...)
+	f = append(append(f, F(len(wf))...), wf...)
+	f = append(append(f, F(R, len(qf))...), qf...)
+	return append(f, F(300)...)
+}
+
 func c14Gen(r *Rand, tier string, scale int, emit func(Fields)) {
 	if scale == 0 {
 		scale = 200
@@ -752,5 +939,8 @@ func c14Gen(r *Rand, tier string, scale int, emit func(Fields)) {
 	}
 	for i := 0; i < scale*3/2; i++ {
 		emit(c14Conc(r.Fork()))
+	}
+	for i := 0; i < 2+scale/40; i++ {
+		emit(c14Hammer(r.Fork()))
 	}
 }
